@@ -173,11 +173,20 @@ func TestConcurrentPresentations(t *testing.T) {
 			}
 			// each goroutine presents one message
 			msgs := make([]*message.Message, ng)
+			who := map[*message.Message]int{}
 			classes := map[string][]int{}
+			// the message UUID is no part of any key: presentations may share one (copies of one message, redeliveries, a
+			// producer with a small id space) or have none
+			uuidPool := rapid.SampledFrom([]int{0, 0, 1, 2}).Draw(t, "presentationsShareUUIDsFromAPoolOf")
 			for g := 0; g < ng; g++ {
 				p := payloads[rapid.IntRange(0, nPayloads-1).Draw(t, "payloadOf")]
 				body := append([]byte(rprefix), p...)
-				m := message.NewMessage(fmt.Sprintf("g%d", g), body)
+				uuid := fmt.Sprintf("g%d", g)
+				if uuidPool > 0 {
+					uuid = []string{"shared-uuid-a", "shared-uuid-b"}[rapid.IntRange(0, uuidPool-1).Draw(t, "uuidOf")]
+				}
+				m := message.NewMessage(uuid, body)
+				who[m] = g
 				if hs.Kind == "meta" {
 					m.Metadata.Set("dedup-key", rprefix+fmt.Sprint(rapid.IntRange(0, 2).Draw(t, "metaKey")))
 				}
@@ -227,8 +236,10 @@ func TestConcurrentPresentations(t *testing.T) {
 				}
 			} else {
 				h = d.Middleware(func(m *message.Message) ([]*message.Message, error) {
-					var g int
-					fmt.Sscanf(m.UUID, "g%d", &g)
+					g, ok := who[m]
+					if !ok {
+						fmt.Sscanf(m.UUID, "g%d", &g)
+					}
 					mu.Lock()
 					passed[g] = true
 					mu.Unlock()
@@ -289,8 +300,13 @@ func TestConcurrentPresentations(t *testing.T) {
 							extraPassed[m.UUID] = true
 							continue
 						}
-						var g int
-						fmt.Sscanf(m.UUID, "g%d", &g)
+						g, ok := who[m]
+						if !ok {
+							fmt.Sscanf(m.UUID, "g%d", &g)
+						}
+						if passed[g] {
+							t.Fatalf("violation: the message presented by goroutine %d reached the wrapped publisher twice", g)
+						}
 						passed[g] = true
 					}
 				}
